@@ -42,6 +42,7 @@ ASSUMPTIONS = [
     "sys.path, warnings.filters and the cwd, whether a loop is running, every loop created during the call closed",
 ]
 NSHARDS = {'quick': 16, 'thorough': 16}
+RULE += (' Flavours added during the build: the body closes the stream it prints to; a statement that REQUIRES a module while sys.path starts with the empty string.')
 
 OUTCOMES = {
     'pass': [],
